@@ -210,6 +210,10 @@ func (d *Discharger) solveAll(jobs []*job, workers int) {
 	byText := map[string]*group{}
 	var groups []*group
 	for _, j := range jobs {
+		if j.q.Broken != "" {
+			j.res = Result{Status: "unknown", Solver: "none", Output: "CONTRACT-MISMATCH " + j.q.Broken}
+			continue
+		}
 		g := byText[j.text]
 		if g == nil {
 			g = &group{text: j.text}
